@@ -384,6 +384,12 @@ def reduced_insertion_alphabet(nlabels: int) -> List[Tuple]:
     return keep
 
 
+def edge_insertion_alphabet(nlabels: int) -> List[Tuple]:
+    """One-child rules and verification rules only: longer histories of the equivalence
+    machinery (cycles of one-way edges with chords, merges in either order)."""
+    return [op for op in insertion_alphabet(nlabels) if op[0] != "m"] + [("m", 0, (1, 2))]
+
+
 def db_oracle(stored_plain, stored_eqv, start: int, iterative: bool) -> bool:
     """has_specification from the stored keys alone."""
     labels = {start}
@@ -495,10 +501,16 @@ def check_db_trees(acc: Acc, db, start: int, iterative: bool, where: str, payloa
             acc.cap("RNG decisions of _get_specification_node capped at 400")
 
 
+def alphabet_for(nlabels: int, reduced) -> List[Tuple]:
+    if reduced == "edges":
+        return edge_insertion_alphabet(nlabels)
+    return reduced_insertion_alphabet(nlabels) if reduced else insertion_alphabet(nlabels)
+
+
 def _worker_dbseq(arg) -> Acc:
     nlabels, depth, first_idx, reduced = arg
     acc = Acc()
-    alpha = reduced_insertion_alphabet(nlabels) if reduced else insertion_alphabet(nlabels)
+    alpha = alphabet_for(nlabels, reduced)
     n = 0
     for tail in product(range(len(alpha)), repeat=depth - 1):
         seq = [alpha[first_idx]] + [alpha[i] for i in tail]
@@ -638,7 +650,7 @@ def run(ctx: Ctx) -> None:
         nl, kmax = 3, 2
         nsets = len(rule_sets(rule_alphabet(nl), kmax))
         shards_d = [(nl, kmax, i, None, -1) for i in range(nsets)]
-        db_plans = [(3, 3, False), (4, 2, True)]
+        db_plans = [(3, 3, False), (4, 2, True), (3, 4, "edges")]
     else:
         nl, kmax = 3, 2
         nsets = len(rule_sets(rule_alphabet(nl), kmax))
@@ -646,13 +658,13 @@ def run(ctx: Ctx) -> None:
         nsets4 = len(rule_sets(rule_alphabet(4), 2))
         last = [[], [[]], [[0]], [[0, 1]], [[], [2]]]
         shards_d += [(4, 2, i, last, 2) for i in range(nsets4)]
-        db_plans = [(3, 4, False), (4, 4, True)]
+        db_plans = [(3, 4, False), (4, 4, True), (3, 5, "edges"), (4, 4, "edges")]
     ctx.bounds = {"dictionaries": {"labels": [s[0] for s in shards_d[:1]] + ([4] if not ctx.quick else []), "rules_per_label": 2, "arity": 2},
                   "db_sequences": [{"labels": n, "depth": d, "reduced_alphabet": r} for n, d, r in db_plans]}
     ctx.pmap(_worker_dicts, shards_d, chunksize=1)
     shards_s = []
     for n, d, reduced in db_plans:
-        alpha = reduced_insertion_alphabet(n) if reduced else insertion_alphabet(n)
+        alpha = alphabet_for(n, reduced)
         shards_s += [(n, d, i, reduced) for i in range(len(alpha))]
     ctx.pmap(_worker_dbseq, shards_s, chunksize=1)
     cfgs = search_configs(ctx.tier)
